@@ -142,7 +142,73 @@ def explore_layout(acc, lay, depth, reqs, reqs_deep, checker=None):
     return list(depth_of)
 
 
+class FullTable(dict):
+    """reference image of a table left at its default: every address 0..65535 exists and holds 0"""
+
+    def __contains__(self, a):
+        return 0 <= a <= 65535
+
+    def __getitem__(self, a):
+        return dict.get(self, a, 0)
+
+
+def shard_defaults(args):
+    """contexts built by the REAL constructor with some tables left at their default: every table is its own
+    65536-cell block, and a second context built the same way is unaffected by writes to the first"""
+    from pymodbus.datastore import ModbusSequentialDataBlock, ModbusSlaveContext
+    acc = Acc()
+    tabs = stores.TABLES
+    writes = [dict(kind='req', fc=5, address=3, value=0xFF00), dict(kind='req', fc=6, address=3, value=0x0666),
+              dict(kind='req', fc=15, address=2, count=3, byte_count=1, bits=[True, True, True]),
+              dict(kind='req', fc=16, address=2, count=3, byte_count=6, registers=[0x1601, 0x1602, 0x1603]),
+              dict(kind='req', fc=22, address=3, and_mask=0x0000, or_mask=0x2222),
+              dict(kind='req', fc=23, read_address=2, read_count=3, write_address=3, write_count=1, write_byte_count=2, write_registers=[0x2323])]
+    reads = [dict(kind='req', fc=fc, address=2, count=3) for fc in (1, 2, 3, 4)]
+    for mask in itertools.product((False, True), repeat=4):
+        explicit = [t for t, e in zip(tabs, mask) if e]
+
+        def build():
+            kw = {}
+            for t in explicit:
+                init = [bool(i % 2) for i in range(8)] if t in stores.BITS else [0x4000 + i for i in range(8)]
+                kw[stores.KW[t]] = ModbusSequentialDataBlock(0, init)
+            return ModbusSlaveContext(zero_mode=True, **kw)
+
+        def ref():
+            t = {}
+            for tb in tabs:
+                if tb in explicit:
+                    t[tb] = dict((i, (bool(i % 2) if tb in stores.BITS else 0x4000 + i)) for i in range(8))
+                else:
+                    t[tb] = FullTable()
+            return datamodel.Store(t)
+        name = 'defaults/explicit=' + (''.join(explicit) or 'none')
+        for w in writes:
+            a, b = build(), build()
+            ra, rb = ref(), ref()
+            seq = [('a', w)] + [(who, r) for r in reads for who in ('a', 'b')]
+            for who, m in seq:
+                ctx, rf = (a, ra) if who == 'a' else (b, rb)
+                want = pdu.encode(datamodel.execute(rf, m))
+                try:
+                    got = serve(ctx, pdu.encode(m))
+                except Exception as e:   # noqa
+                    got = ('raise:' + type(e).__name__).encode()
+                acc.inc('transitions')
+                if got != want:
+                    what = 'other-context-affected' if who == 'b' else ('table-aliasing' if m['fc'] in (1, 2, 3, 4) else 'bytes')
+                    acc.violation('C04/fc%02d/response/default-tables/%s' % (w['fc'], what),
+                                  dict(layout=name, write=pdu.encode(w).hex(), then=pdu.encode(m).hex(), on=who),
+                                  'after %s on context a, %s on context %s answered %s, reference %s'
+                                  % (pdu.encode(w).hex(), pdu.encode(m).hex(), who, got.hex() if isinstance(got, bytes) else got, want.hex()), name)
+        acc.add('nontrivial', name)
+    acc.inc('states', 16)
+    return acc
+
+
 def shard(args):
+    if args[0] == 'defaults':
+        return shard_defaults(args)
     tier, idx = args
     acc = Acc()
     lay = stores.layouts()[idx]
@@ -154,7 +220,7 @@ def shard(args):
 
 def run(tier, seed):
     n = len(stores.layouts())
-    acc = par.run_shards(shard, [(tier, i) for i in range(n)])
+    acc = par.run_shards(shard, [(tier, i) for i in range(n)] + [('defaults',)])
     acc.n['traces_validated_against_impl'] = acc.n.get('transitions', 0)
     acc.n['evaluations'] = acc.n.get('transitions', 0)
     he = None if acc.n.get('normal_responses', 0) > 1000 else 'vacuous: too few accepted requests'
@@ -174,6 +240,10 @@ def run(tier, seed):
 
 
 def replay(w):
+    if w['layout'].startswith('defaults/'):
+        acc = shard_defaults(('defaults',))
+        vs = [v for v in acc.violations if v['witness'] == w]
+        return bool(vs), '\n'.join(v['msg'] for v in vs) or 'no violation'
     lay = [l for l in stores.layouts() if l.name == w['layout']][0]
     s = lay.initial_state()
     lines, bad = [], False
